@@ -13,7 +13,7 @@ SINKS = [
     (r'^std::fs::write$', 'write', [0]),
     (r'^std::fs::create_dir$', 'create_dir', [0]),
     (r'^std::fs::create_dir_all$', 'create_dir_all', [0]),
-    (r'^std::fs::hard_link$', 'hard_link', [1]),
+    (r'^std::fs::hard_link$', 'hard_link', [0, 1]),   # the source inode's link count changes too
     (r'^std::fs::soft_link$', 'symlink', [1]),
     (r'^std::os::unix::fs::symlink$', 'symlink', [1]),
     (r'^std::fs::set_permissions$', 'set_permissions', [0]),
@@ -53,9 +53,13 @@ class CallGraph:
         by crate-qualified path `fclones::x::y` -> mapped to lib path `x::y`."""
         self.units = units
         self.bodies = {}
+        self.by_canon = {}
         for u in units:
             for p, b in u.bodies.items():
                 self.bodies.setdefault(self._key(u, p), b)
+                c = b.raw.get('canon')
+                if c:
+                    self.by_canon.setdefault(c, self._key(u, p))
         self.edges = defaultdict(set)         # body key -> set of body keys
         self.leaf_calls = defaultdict(list)   # body key -> list of Call to non-local callees
         self.edge_sites = defaultdict(list)   # (caller, callee) -> list of Call / ('drop', bb) / ('closure', bb)
@@ -113,7 +117,7 @@ class CallGraph:
                 for o in rvalue_operands(rv):
                     c = op_const(o)
                     if c and 'fn' in c:
-                        k = self._resolve_local(unit, c['fn'])
+                        k = self.by_canon.get(c.get('fn_canon')) or self._resolve_local(unit, c['fn'])
                         if k:
                             self._edge(me, k, ('fnref', bi))
             t = blk['term']
@@ -128,16 +132,16 @@ class CallGraph:
                 for a in t['args']:
                     kc = op_const(a)
                     if kc and 'fn' in kc:
-                        k = self._resolve_local(unit, kc['fn'])
+                        k = self.by_canon.get(kc.get('fn_canon')) or self._resolve_local(unit, kc['fn'])
                         if k:
                             self._edge(me, k, ('fnref', bi))
                 targets = []
                 if f.get('res') and f.get('path'):
-                    k = self._resolve_local(unit, f['path'])
+                    k = self.by_canon.get(f.get('canon')) or self._resolve_local(unit, f['path'])
                     if k:
                         targets.append(k)
                 if f.get('self_closure'):
-                    k = self._resolve_local(unit, f['self_closure'])
+                    k = self.by_canon.get(f.get('self_closure_canon')) or self._resolve_local(unit, f['self_closure'])
                     if k:
                         targets.append(k)
                 if f.get('self_fn'):
@@ -147,8 +151,9 @@ class CallGraph:
                 if not f.get('res') and f.get('trait') and f.get('method'):
                     targets.extend(self.impl_methods.get((f['trait'], f['method']), []))
                     targets.extend(self.impl_methods.get((re.sub(r'^fclones::', '', f['trait']), f['method']), []))
-                if not targets or not f.get('local'):
+                if not targets:
                     self.leaf_calls[me].append(c)
+                if not targets or not f.get('local'):
                     # callbacks from external generic code into local trait impls of the
                     # local types named in the generic arguments
                     for ga in (f.get('rargs') or []) + (f.get('gargs') or []):
@@ -171,6 +176,14 @@ class CallGraph:
             if n in self._adt_names:
                 out.append(n)
         return out
+
+    def target_of(self, call):
+        """body key a resolved call lands in (same or other unit), or None"""
+        f = call.f
+        k = self.by_canon.get(f.get('canon')) if f.get('res') else None
+        if k is None and f.get('self_closure_canon'):
+            k = self.by_canon.get(f['self_closure_canon'])
+        return k
 
     def _edge(self, a, b, site):
         self.edges[a].add(b)
